@@ -140,34 +140,42 @@ def eqvMargin (g h : Gate) : Float :=
       if ka != kb && d > 1e-6 && d < period g.name - 1e-6 then 1.0 else (if ma < mb then ma else mb)
   | _, _ => 1.0
 
+/-- how a supported gate name is to be read -/
+inductive Shape
+  | one1 (b : Base)      -- one-qubit matrix, no control allowed
+  | oneC (b : Base)      -- one-qubit matrix on the target, applied when all controls are 1
+  | swap | cswap | xx
+deriving DecidableEq, Repr, Inhabited
+
+/-- the documented gate set (the specification side of C01; hand-written, not generated) -/
+def shapeOf : String → Option Shape
+  | "H" => some (.one1 .H) | "X" => some (.one1 .X) | "Y" => some (.one1 .Y) | "Z" => some (.one1 .Z)
+  | "S" => some (.one1 .S) | "T" => some (.one1 .T)
+  | "RX" => some (.one1 .RX) | "RY" => some (.one1 .RY) | "RZ" => some (.one1 .RZ) | "PHASE" => some (.one1 .PHASE)
+  | "CNOT" => some (.oneC .X) | "CX" => some (.oneC .X) | "CY" => some (.oneC .Y) | "CZ" => some (.oneC .Z)
+  | "CH" => some (.oneC .H)
+  | "CRX" => some (.oneC .RX) | "CRY" => some (.oneC .RY) | "CRZ" => some (.oneC .RZ) | "CPHASE" => some (.oneC .PHASE)
+  | "SWAP" => some .swap | "CSWAP" => some .cswap | "XX" => some .xx
+  | _ => Option.none
+
+def baseOp (b : Base) (t : Nat) (cs : List Nat) : Param → Option Op
+  | .ang θ => some (Op.one b θ t cs)
+  | _ => if b.parametrized then Option.none else some (Op.one b 0 t cs)
+
+def shapeToOp : Shape → List Nat → Option (List Nat) → Param → Option Op
+  | .one1 b, [t], Option.none, p => baseOp b t [] p
+  | .oneC b, [t], some cs, p => baseOp b t cs p
+  | .swap, [a, b], Option.none, _ => some (Op.swap a b [])
+  | .cswap, [a, b], some cs, _ => some (Op.swap a b cs)
+  | .xx, [a, b], Option.none, .ang θ => some (Op.xx θ a b)
+  | _, _, _, _ => Option.none
+
 /-- The documented operation of a gate of the supported set (`none`: not a unitary
     gate of the supported set, or malformed for its name). -/
 def toOp (g : Gate) : Option Op :=
-  let θ? : Option Ang := match g.param with | .ang a => some a | _ => Option.none
-  let one1 (b : Base) : Option Op :=
-    match g.target, g.control with
-    | [t], Option.none => if b.parametrized then θ?.map (fun θ => Op.one b θ t []) else some (Op.one b 0 t [])
-    | _, _ => Option.none
-  let oneC (b : Base) : Option Op :=
-    match g.target, g.control with
-    | [t], some cs => if b.parametrized then θ?.map (fun θ => Op.one b θ t cs) else some (Op.one b 0 t cs)
-    | _, _ => Option.none
-  match g.name with
-  | "H" => one1 .H | "X" => one1 .X | "Y" => one1 .Y | "Z" => one1 .Z
-  | "S" => one1 .S | "T" => one1 .T
-  | "RX" => one1 .RX | "RY" => one1 .RY | "RZ" => one1 .RZ | "PHASE" => one1 .PHASE
-  | "CNOT" => oneC .X | "CX" => oneC .X | "CY" => oneC .Y | "CZ" => oneC .Z | "CH" => oneC .H
-  | "CRX" => oneC .RX | "CRY" => oneC .RY | "CRZ" => oneC .RZ | "CPHASE" => oneC .PHASE
-  | "SWAP" => match g.target, g.control with
-      | [a, b], Option.none => some (Op.swap a b [])
-      | _, _ => Option.none
-  | "CSWAP" => match g.target, g.control with
-      | [a, b], some cs => some (Op.swap a b cs)
-      | _, _ => Option.none
-  | "XX" => match g.target, g.control with
-      | [a, b], Option.none => θ?.map (fun θ => Op.xx θ a b)
-      | _, _ => Option.none
-  | _ => Option.none
+  match shapeOf g.name with
+  | Option.none => Option.none
+  | some sh => shapeToOp sh g.target g.control g.param
 
 end Gate
 
